@@ -82,6 +82,10 @@ func (f *formatter) newToken(id token.ID, val []byte) *token.Token {
 }
 
 func (f *formatter) formatList(nodes []ast.Vertex, separator byte) []*token.Token {
+	if len(nodes) == 0 {
+		return nil
+	}
+
 	separatorTkns := make([]*token.Token, len(nodes)-1)
 	for i, v := range nodes {
 		v.Accept(f)
@@ -266,8 +270,10 @@ func (f *formatter) StmtClass(n *ast.StmtClass) {
 
 	n.ClassTkn = f.newToken(token.T_CLASS, []byte("class"))
 
-	f.addFreeFloating(token.T_WHITESPACE, []byte(" "))
-	n.Name.Accept(f)
+	if n.Name != nil {
+		f.addFreeFloating(token.T_WHITESPACE, []byte(" "))
+		n.Name.Accept(f)
+	}
 
 	n.OpenParenthesisTkn = nil
 	n.CloseParenthesisTkn = nil
@@ -1044,7 +1050,9 @@ func (f *formatter) ExprArray(n *ast.ExprArray) {
 func (f *formatter) ExprArrayDimFetch(n *ast.ExprArrayDimFetch) {
 	n.Var.Accept(f)
 	n.OpenBracketTkn = f.newToken('[', []byte("["))
-	n.Dim.Accept(f)
+	if n.Dim != nil {
+		n.Dim.Accept(f)
+	}
 	n.CloseBracketTkn = f.newToken(']', []byte("]"))
 }
 
@@ -1060,7 +1068,9 @@ func (f *formatter) ExprArrayItem(n *ast.ExprArrayItem) {
 		f.addFreeFloating(token.T_WHITESPACE, []byte(" "))
 	}
 
-	n.Val.Accept(f)
+	if n.Val != nil {
+		n.Val.Accept(f)
+	}
 }
 
 func (f *formatter) ExprArrowFunction(n *ast.ExprArrowFunction) {
@@ -1453,7 +1463,9 @@ func (f *formatter) ExprYield(n *ast.ExprYield) {
 		f.addFreeFloating(token.T_WHITESPACE, []byte(" "))
 	}
 
-	n.Val.Accept(f)
+	if n.Val != nil {
+		n.Val.Accept(f)
+	}
 }
 
 func (f *formatter) ExprYieldFrom(n *ast.ExprYieldFrom) {
